@@ -705,6 +705,17 @@ func EnumPaths(fn *ssa.Function, o EnumOpts) ([]Path, error) {
 				continue
 			}
 			if l != nil {
+				// an SSA value has one truth value along an acyclic path: the opposite
+				// branch on a condition already decided is infeasible
+				contradiction := false
+				for _, prev := range lits {
+					if prev.Cond == l.Cond && prev.Atom == l.Atom && prev.Pos != l.Pos {
+						contradiction = true
+					}
+				}
+				if contradiction {
+					continue
+				}
 				lits = append(lits, *l)
 				walk(s, false, env.enter(b, s))
 				lits = lits[:len(lits)-1]
